@@ -88,6 +88,7 @@ static void fixture(const char *p0, const char *p1, const char *enc1)
     "kca CARRAY UINT8 1 2 3\nad BIT raw kca<1> 2\nkindir INDIR r16 kca\n"
     "kc/mv PHASE raw 1\nkzz LINCOM 1 kc/mv 1 0\n"
     "nofile RAW UINT8 1\n"      /* a RAW field whose data file does not exist */
+    "xsc PHASE raw skc\n"       /* a client, in fragment 0, of a scalar that lives in fragment 1 */
     "/INCLUDE sub/format1\n/INCLUDE pre/format2 P_\n/REFERENCE raw\n", p0);
   wfile("format", fmt, strlen(fmt));
   snprintf(fmt, sizeof fmt,
@@ -97,7 +98,12 @@ static void fixture(const char *p0, const char *p1, const char *enc1)
   /* fragment 2: included with a prefix, so that field codes there carry an affix */
   snprintf(fmt, sizeof fmt,
     "/ENCODING none\npraw RAW UINT8 1\nplint LINTERP praw ../lut.txt\npph PHASE praw 1\npbit BIT praw 0 4\n"
-    "plc LINCOM 1 praw 2 0\nppoly POLYNOM praw 1 2\npconst CONST UINT8 3\npmult MULTIPLY praw praw\n");
+    "plc LINCOM 1 praw 2 0\nppoly POLYNOM praw 1 2\npconst CONST UINT8 3\npmult MULTIPLY praw praw\n"
+    "/INCLUDE deep/format3\n");
+  snprintf(fmt + 2000, sizeof fmt - 2000, "%s/pre/deep", DD); mkdir(fmt + 2000, 0777);
+  wfile("pre/deep/format3", "/PROTECT format\ndconst CONST UINT8 9\n", 37);
+  /* a fragment that is not included: defines fields, a metafield of raw, a /REFERENCE, then fails to parse */
+  wfile("sub/badfrag", "newraw RAW UINT8 1\nraw/submeta CONST UINT8 1\n/REFERENCE newraw\nthis is bad\n", 75);
   wfile("pre/format2", fmt, strlen(fmt));
   for (i = 0; i < 30; i++) raw[i] = (unsigned char)(2 * i);
   wfile("pre/praw", raw, 30);
@@ -630,6 +636,11 @@ int main(int argc, char **argv)
       fixture(p0, p1, enc1);
       do_open(mode);
       printf("CASE %s open_err %d\n", id, gd_error(D));
+      continue;
+    }
+    if (!strcmp(cmd, "wfile")) { /* wfile <rel> <escaped content>: scaffolding, writes a file into the dirfile */
+      char *rel = rest ? strtok(rest, " \t") : NULL, *c = rel ? strtok(NULL, "\n") : NULL;
+      if (rel) { char *t = dec(c ? c : "~"); wfile(rel, t, strlen(t)); free(t); printf("WFILE %s\n", rel); }
       continue;
     }
     if (!strcmp(cmd, "rmfile")) { char p[2600]; snprintf(p, sizeof p, "%s/%s", DD, rest ? rest : ""); printf("RMFILE %d\n", unlink(p)); continue; }
